@@ -35,6 +35,8 @@ class SquashedMultivariateNormalDiag(
     ):
         loc = jnp.asarray(loc)
         scale_diag = jnp.asarray(scale_diag)
+        high = jnp.asarray(high)
+        low = jnp.asarray(low)
 
         (high, low) = eqx.error_if(
             (high, low),
@@ -43,8 +45,8 @@ class SquashedMultivariateNormalDiag(
             "dimensions. Got non-finite bounds.",
         )
 
-        high = jnp.broadcast_to(jnp.asarray(high), loc.shape)
-        low = jnp.broadcast_to(jnp.asarray(low), loc.shape)
+        high = jnp.broadcast_to(high, loc.shape)
+        low = jnp.broadcast_to(low, loc.shape)
 
         mvn = distributions.MultivariateNormalDiag(loc=loc, scale_diag=scale_diag)
 
